@@ -1,4 +1,4 @@
 SPECIFICATION Spec
-CONSTANTS NSet = {30, 200, 1000, 5000}  Reps = {1, 2, 3, 4, 5}
+CONSTANTS ZPWeights = {"none", "linear", "quadratic", "cubic", "array"}  ZPSizes = {30, 200, 1000}  NSet = {30, 200, 1000, 5000}  Reps = {1, 2, 3, 4, 5}
 CHECK_DEADLOCK FALSE
 INVARIANT Emit
